@@ -13,6 +13,20 @@ fn main() {
     if args[1] == "c20-one" {
         props::c20::one_main(&args[2]);
     }
+    if args[1] == "probe-ros" {
+        // explore one executor system given as JSON (RosSys) and print what the model finds
+        let sys: props::ros::RosSys = serde_json::from_str(&args[2]).unwrap_or_else(|e| machinery_error(&format!("{e}")));
+        let ctx = Ctx::new("C05", Tier::Quick);
+        let mut acc = props::uni::Acc::default();
+        let mut found = vec![];
+        println!("bounds from the real analysis: {:?}", sys.bounds(props::ros::ROS_LIMIT));
+        props::ros::check_system(&ctx, &sys, 0, &mut acc, &mut found);
+        println!("systems={} states={} complete={} truncated={} tight={}/{}", acc.systems, acc.states, acc.complete, acc.truncated, acc.tight, acc.bounds_checked);
+        for f in found {
+            println!("FOUND {} :: {}", f.key, f.what);
+        }
+        std::process::exit(0);
+    }
     if args[1] == "replay" {
         let txt = std::fs::read_to_string(&args[2]).unwrap_or_else(|e| machinery_error(&format!("{e}")));
         let v: serde_json::Value = serde_json::from_str(&txt).unwrap_or_else(|e| machinery_error(&format!("{e}")));
